@@ -143,7 +143,10 @@ def run_hypothesis(prop, tier, seed, col, ncases):
         except Exception as e:       # bug in the harness, not a violation
             col.harness_error = core.format_exc(e)
             return
-        if col.feed(spec, res):
+        bad = col.feed(spec, res)
+        if bad:
+            if any(v.kind == 'hang' for v in bad):
+                col.post_fail = budget + 1      # never shrink through hangs
             raise PropertyFailure()
 
     test = given(prop.strategy(tier))(body)
